@@ -710,6 +710,14 @@ func opensUnder(raw []byte, p *peer) []byte {
 }
 
 func main() {
+	if len(os.Args) >= 5 && os.Args[1] == "-lin-race-child" {
+		var seed int64
+		var rounds int
+		fmt.Sscan(os.Args[2], &seed)
+		fmt.Sscan(os.Args[3], &rounds)
+		raceWorkload(seed, rounds, os.Args[4])
+		return
+	}
 	run = vf.Start("C03", "exploration")
 	r := run
 	r.SetRule("a history = (pairing set of 0..3 controllers, optionally a removed one, 1 or 2 connections, sequence over a 29-symbol pair-verify alphabet); all sequences up to length 2 (quick) / 3 (thorough) " +
@@ -853,6 +861,9 @@ func main() {
 	tl := time.Now()
 	linearRounds(r)
 	r.Extra("wall_s_harness_L", time.Since(tl).Seconds())
+	if r.ViolationCount() == 0 {
+		linearRaceChild(r) // (a tree that already violates is not also run under the race detector)
+	}
 
 	r.Floor("messages", int(r.Counter("messages")), 5000)
 	r.Floor("verified_by_genuine_finish", int(r.Counter("verified_by_genuine_finish")), 50)
